@@ -240,3 +240,104 @@ def check(model, rep):
         ok = 'len(shape)' in txt and 'max(shape)' in txt and '.shape' in txt and bare and falls
     rep.ob('R20.3', dispa, 'shape / dims / max(shape) probed inside try ... except: return str(matrix)', ok,
            'a probe that raises for 0-d arrays or shapeless objects is outside the catch-all fallback')
+
+    # ---------------------------------------------------------------- R20.4
+    rep.rule('R20.4', 'LaTeX renderer: no integer conversion (int / one-argument round / floor / ceil) of an array element '
+                      'unless a finiteness test dominates it (NaN and +-inf are valid entries and must render, not raise)')
+    n_conv = 0
+    for fi in model.funcs_in(MOD):
+        if fi.outer is not None or fi.name != 'disptex' or not fi.params:
+            continue        # the LaTeX renderer of 2-D numeric arrays (dispa has R20.3; list printers are outside the NaN/inf clause)
+        matp = fi.params[0]
+        tainted = {matp}
+        changed = True
+        while changed:
+            changed = False
+            for n in walk_own(fi.node):
+                if isinstance(n, ast.Assign) and any(isinstance(x, ast.Name) and x.id in tainted for x in ast.walk(n.value)):
+                    for t in n.targets:
+                        for x in ast.walk(t):
+                            if isinstance(x, ast.Name) and x.id not in tainted and isinstance(x.ctx, ast.Store):
+                                tainted.add(x.id)
+                                changed = True
+                if isinstance(n, ast.For) and any(isinstance(x, ast.Name) and x.id in tainted for x in ast.walk(n.iter)):
+                    for x in ast.walk(n.target):
+                        if isinstance(x, ast.Name) and x.id not in tainted:
+                            tainted.add(x.id)
+                            changed = True
+        # shapes / lengths are integers already
+        def is_conv(c):
+            f = c.func
+            nm = src(f)
+            if nm == 'int' and len(c.args) == 1:
+                return True
+            if nm == 'round' and len(c.args) == 1:
+                return True
+            return nm in ('math.floor', 'math.ceil', 'np.floor', 'np.ceil') and False
+        found4 = {}
+
+        class G4(FactDomain):
+            def user_call(s_, call, facts, user):
+                if isinstance(call, ast.Call) and is_conv(call):
+                    a = call.args[0]
+                    names = {x.id for x in ast.walk(a) if isinstance(x, ast.Name)}
+                    if not (names & tainted) or any(isinstance(x, ast.Call) and src(x.func) in ('len',) for x in ast.walk(a)) \
+                            or any(isinstance(x, ast.Attribute) and x.attr == 'shape' for x in ast.walk(a)):
+                        return user
+                    at = src(a)
+                    finite = any(FactDomain.has(facts, True, '%s(%s)' % (fn_, at)) for fn_ in ('math.isfinite', 'np.isfinite'))
+                    noinf = finite or any(FactDomain.has(facts, False, '%s(%s)' % (fn_, at)) for fn_ in ('math.isinf', 'np.isinf'))
+                    nonan = finite or any(FactDomain.has(facts, False, '%s(%s)' % (fn_, at)) for fn_ in ('math.isnan', 'np.isnan'))
+                    key = '%s (line %d)' % (src(call)[:50], call.lineno)
+                    found4[key] = (found4.get(key, (True,))[0] and noinf and nonan, call.lineno)
+                return user
+        Flow(G4()).run(fi.body(), {((frozenset(), None), frozenset())})
+        for k, (ok, line) in sorted(found4.items()):
+            n_conv += 1
+            rep.ob('R20.4', fi, k, ok, 'integer conversion of a value taken from the array without a dominating finiteness test: a NaN entry raises '
+                   'ValueError and an infinite one OverflowError, so disp() raises instead of returning the rendering', line=line)
+        rep.ob('R20.4', fi, 'element conversions of %s guarded' % fi.name, all(v[0] for v in found4.values()), 'see the conversions above')
+    rep.count('R20.4 integer conversions of array elements outside dispa', n_conv)
+
+    # ---------------------------------------------------------------- R20.5
+    rep.rule('R20.5', 'builtin round() is applied to a raw array element only if every scalar type of the stated dtypes (float / int / bool) '
+                      'implements __round__ in the installed NumPy, or a conversion / capability test comes first')
+    from ..engine import npstub
+    DTYPES = ('floating', 'integer', 'bool')
+    lacking = [c for c in DTYPES if npstub.scalar_has_method(c, '__round__') == 'no']
+    n_round = 0
+    for fi in (dispa, model.func(MOD, 'disptex')):
+        matp = fi.params[0]
+        found5 = {}
+
+        class G5(FactDomain):
+            # user = names that currently hold a raw element of the array (path-sensitive)
+            def user_store(s_, target, value, stmt, facts, user):
+                user = user or frozenset()
+                if isinstance(target, ast.Name):
+                    is_raw = isinstance(value, ast.Subscript) and isinstance(value.value, ast.Name) and value.value.id == matp
+                    return (user | {target.id}) if is_raw else (user - {target.id})
+                return user
+
+            def user_call(s_, call, facts, user):
+                user = user or frozenset()
+                if isinstance(call.func, ast.Name) and call.func.id == 'round' and call.args:
+                    a = call.args[0]
+                    raw = (isinstance(a, ast.Subscript) and isinstance(a.value, ast.Name) and a.value.id == matp) or \
+                          (isinstance(a, ast.Name) and a.id in user)
+                    if not raw:
+                        return user
+                    at = src(a)
+                    guarded = FactDomain.has(facts, True, "hasattr(%s, '__round__')" % at) or FactDomain.has(facts, False, "not hasattr(%s, '__round__')" % at) or any(
+                        f[0] is True and f[1].replace(' ', '').startswith('abs(%s)>=' % at.replace(' ', '')) for f in facts) or any(
+                        f[0] is False and f[1].replace(' ', '').startswith('isinstance(%s,' % at.replace(' ', '')) and 'bool' in f[1] for f in facts)
+                    key = '%s (line %d)' % (src(call)[:50], call.lineno)
+                    found5[key] = (found5.get(key, (True,))[0] and (guarded or not lacking), call.lineno)
+                return user
+        Flow(G5()).run(fi.body(), {((frozenset(), None), frozenset())})
+        for k, (ok, line) in sorted(found5.items()):
+            n_round += 1
+            rep.ob('R20.5', fi, k, ok, 'round() is applied to a raw element of the array; numpy.%s defines no __round__ (installed type stub), so a matrix of '
+                   'that dtype makes disp() raise TypeError instead of returning the rendering' % (lacking[0] if lacking else '?'), line=line)
+    rep.count('R20.5 round() calls on raw elements', n_round)
+    rep.floor('R20.5', 'round() calls on raw elements', n_round, 1)
